@@ -133,12 +133,16 @@ def dependents(modname: str) -> list[str]:
 
 def closure_deps(modname: str) -> list[str]:
     out: list[str] = []
+    visiting: set[str] = set()
 
     def walk(m):
+        if m in visiting:
+            return  # an import cycle in the source: do not follow it twice
+        visiting.add(m)
         for d in static_deps(m):
-            if d not in out:
+            if d not in out and d != modname:
                 walk(d)
-                if d not in out:
+                if d not in out and d != modname:
                     out.append(d)
 
     walk(modname)
@@ -231,7 +235,7 @@ def generate(seed: int, run: int, tier: str) -> dict:
         for t in targets:
             ops.append({"op": "import", "m": t})
             for _ in range(rng.choice([1, 2])):
-                ops.append({"op": "call", "m": t, "jitter": rng.choice([1.0, 1.0004, 0.9997, 1.00001, 1.3])})
+                ops.append({"op": "call", "m": t, "jitter": rng.choice([1.0, 1.0004, 0.9997, 1.00001, 1.3]), "seqlen": rng.choice([3, 3, 2, 4])})
     if style == "args_early":
         # argument quantities are created first, a lot happens, and only then are they used
         for t in targets:
@@ -300,8 +304,23 @@ def _package_order_jobs(seed, tier) -> list[dict]:
     return jobs
 
 
+def _sequence_and_vector_jobs(seed) -> list[dict]:
+    """Modules whose functions take sequences are first called with another number of components;
+    modules whose functions take vectors get their argument vectors created before SymPy's cache is
+    cleared and are called afterwards."""
+    jobs = []
+    for i, m in enumerate(modules()):
+        src = _source(m)
+        if "Sequence[" in src and "def calculate_" in src:
+            for n in (2, 4):
+                jobs.append(_job(seed, f"sys:seq:{i}:{n}", ENV0, [{"op": "import", "m": m}, {"op": "call", "m": m, "seqlen": n}, {"op": "observe", "m": m}]))
+        if "QuantityVector" in src and "def calculate_" in src:
+            jobs.append(_job(seed, f"sys:vec:{i}", ENV0, [{"op": "import", "m": m}, {"op": "prepare_args", "m": m}, {"op": "clear_cache"}, {"op": "create", "kind": "CoordinateSystem", "k": 1}, {"op": "observe", "m": m, "use_prepared": True}]))
+    return jobs
+
+
 def systematic_jobs(tier: str, seed: int, ctx) -> list[dict]:
-    jobs = _package_order_jobs(seed, tier)
+    jobs = _package_order_jobs(seed, tier) + _sequence_and_vector_jobs(seed)
     if tier == "thorough":
         for i, env in enumerate(ENVS):
             jobs.append(_whole_catalogue_job(seed, f"sys:all:{i}", env, i if i else -1, None))
@@ -477,7 +496,7 @@ def child_run(job: dict) -> dict:
         elif kind == "call":
             mod = sys.modules.get(op["m"])
             if mod is not None:
-                res = observe.call_functions(mod, jitter=float(op.get("jitter", 1.0)))
+                res = observe.call_functions(mod, jitter=float(op.get("jitter", 1.0)), seqlen=int(op.get("seqlen", 3)))
                 faults["call_before"] += 1
                 if op.get("jitter", 1.0) != 1.0:
                     faults["call_nearby_args"] = faults.get("call_nearby_args", 0) + 1
